@@ -186,6 +186,12 @@ func c10Run(c *h.Ctx) {
 		}
 	}
 	for k := 0; k < c.Pick(1, 6); k++ {
+		id := fmt.Sprintf("shared%d", k)
+		if c.Case(id) {
+			c10Shared(c, id, c.Rng(id))
+		}
+	}
+	for k := 0; k < c.Pick(1, 6); k++ {
 		id := fmt.Sprintf("udplisten%d", k)
 		if c.Case(id) {
 			c10Listener(c, id, c.Rng(id))
